@@ -76,6 +76,13 @@ def _cases_core(rng, tier):
         yield "scr_raw d" + hx(d).replace("-", ""), "len-exhaustive"
         if ln % (1 if tier == "thorough" else 7) == 0 or ln in (1, 75, 76, 255, 256, 520, 521):
             yield "scr_ser " + _cmds_str([0xac, d] if ln else [0xac]), "len-ser"
+    # elements OVER the limit, alone and between ordinary elements, first / middle / last: 521, 522, PUSHDATA2's own
+    # range up to 65535 and what lies beyond it
+    for ln in ([521, 522, 600, 4096, 65535, 65536] if tier == "quick" else [521, 522, 523, 600, 1000, 4096, 65534, 65535, 65536, 70000]):
+        big = bytes((ln + i) & 0xff for i in range(ln))
+        for cmds in ([big], [0x76, big], [big, 0xac], [bytes(20), big, bytes(33)], [bytes(520), big], [big, big]):
+            yield "scr_raw " + _cmds_str(cmds), "oversize-element"
+            yield "scr_ser " + _cmds_str(cmds), "oversize-element-ser"
     for b in range(0, 300):
         yield "scr_raw o%d" % b, "opcode-exhaustive"
     for n in BOUNDS:
